@@ -90,6 +90,13 @@ def gen_hull(ctx):
         m = rng.randint(1, 7 if k == 3 else 5)
         pts = [(F(rng.randint(0, k - 1)), F(rng.randint(0, k - 1))) for _ in range(m)]
         out.append({"pts": pts})
+    # every sequence of up to three points of the 3x3 lattice (order matters to the in-place sort of the compiled twin: seed c16-4
+    # escaped the random sequences for one PRNG seed)
+    import itertools
+    lat = [(F(a), F(b)) for a in range(3) for b in range(3)]
+    for m in (1, 2, 3):
+        for seq in itertools.product(lat, repeat=m):
+            out.append({"pts": list(seq)})
     # the pinned input of the compiled-hull defect F1 (repeated points)
     out.append({"pts": [(F(1), F(1)), (F(0), F(0)), (F(0), F(0)), (F(1), F(0)), (F(0), F(1))]})
     return out
@@ -228,8 +235,11 @@ def judge_hull(c, op, cfg, raw):
                     return "input point %s lies outside the returned hull" % (tuple(map(float, p)),)
     elif n == 2:
         for p in pts:
-            if cr(hull[0], hull[1], p) != 0:
-                return "input point %s is not on the returned segment" % (tuple(map(float, p)),)
+            between = all(min(hull[0][k], hull[1][k]) <= p[k] <= max(hull[0][k], hull[1][k]) for k in (0, 1))
+            if cr(hull[0], hull[1], p) != 0 or not between:
+                return "input point %s is not on the returned segment %s" % (tuple(map(float, p)), [tuple(map(float, h)) for h in hull])
+        if hull[0] == hull[1]:
+            return "two-vertex hull with a repeated vertex"
     else:
         if any(p != hull[0] for p in pts):
             return "single-point hull for several distinct points"
